@@ -242,7 +242,11 @@ EXEMPT_CALLEES = {
     "libfs::common::copy_xattr": "C04 exempts extended attributes: failure is a warning by design",
     "xattr::FileExt::set_xattr": "C04 exempts extended attributes",
     "simplelog::loggers::termlog::TermLogger::init": "logger set-up: falls back to the plain logger; no file-system effect",
+    "ignore::gitignore::GitignoreBuilder::add": "an absent .gitignore is the normal case and the API reports it the same way as "
+                                                "partial parse errors, which git itself tolerates; reading .gitignore is not one of the steps C04 lists",
 }
+STD_STREAMS = ("std::io::Stdout", "std::io::StdoutLock", "std::io::Stderr", "std::io::StderrLock",
+               "std::io::stdio::Stdout", "std::io::stdio::StdoutLock", "std::io::stdio::Stderr", "std::io::stdio::StderrLock")
 _current = {"prim": None, "term": None, "fn": None}
 
 
@@ -784,6 +788,8 @@ def run(fx, crates=None, cfgname="A"):
             why = None
             if o in EXEMPT_CALLEES or callee_path(t) in EXEMPT_CALLEES:
                 why = EXEMPT_CALLEES.get(o) or EXEMPT_CALLEES.get(callee_path(t))
+            elif o.startswith("std::io::Write::") and (t.get("arg_tys") or [""])[0].lstrip("&mut ").startswith(STD_STREAMS):
+                why = "output to the process's standard streams is not a step that produces the destination"
             elif o == SEND and len(t["args"]) > 1 and op_local(t["args"][1]) is not None and \
                     _is_error_update(fo, op_local(t["args"][1])):
                 why = "this is the delivery of an error report itself: it can only fail when the receiver is gone"
